@@ -71,6 +71,7 @@ func checkC19(r *Run) {
 
 	// ---- all Readdir implementations ----
 	db := buildSiteDB(r.L, fsPkgs...)
+	c19QidWrapper(r, db)
 	type impl struct {
 		fi   *FuncInfo
 		info *types.Info
@@ -219,6 +220,9 @@ func checkC19(r *Run) {
 		// clamped one, not the requested one (the rule of C13.r2) - a too large Rreaddir ends
 		// the listing with a connection error on the client
 		r.borrow(checkC13, map[string]string{"r2": "r6"})
+		// ... and the client asks for what its caller asked for (C03.r1: parameters are sent
+		// as passed) - a client-side clamp below one entry ends the listing early
+		r.borrow(checkC03, map[string]string{"r1": "r6"})
 		// r5 (continued): the QID a listing reports for an entry is the one a walk reports:
 		// the mapper's lookup and insert are one critical section (the rule of C20.r1)
 		r.borrow(checkC20, map[string]string{"r1": "r5"})
@@ -471,4 +475,123 @@ func c19Producers(r *Run, db *SiteDB) {
 		r.check(maps, "r5", "qidTransformFile."+nm+" maps its QIDs through the wrapper's Mapper", fi.Decl.Pos(), "q.m.QIDFor", "qidTransformFile."+nm+" does not pass its QIDs through q.m.QIDFor")
 	}
 	r.floor("r5", "QID-returning File methods", len(need), 9)
+}
+
+// c19QidWrapper (r5): the QID-translating wrapper of fsimpl/qids hands out only wrapped Files.
+// Every method of qidTransformFile that returns a p9.File returns, on every path, nil or a
+// File wrapped with the wrapper's own mapper - otherwise the QIDs a listing reports for the
+// entries of a nested mount (outer namespace) differ from what GetAttr on the walked File
+// reports (inner namespace).  Decided as a must-analysis per returned variable: "nil or
+// wrapped" is established by an assignment from a qidTransformFile literal (or from a helper
+// that returns nil-or-wrapped for its argument) and along the edge v == nil, and destroyed by
+// any other assignment.
+func c19QidWrapper(r *Run, db *SiteDB) {
+	pkg := r.L.Pkg("fsimpl/qids")
+	if pkg == nil {
+		r.undecided("r5", "fsimpl/qids", token.NoPos, "package not loaded")
+		return
+	}
+	info := pkg.TypesInfo
+	isWrapLit := func(e ast.Expr) bool {
+		cl, ok := unparen(e).(*ast.CompositeLit)
+		return ok && strings.HasSuffix(types.TypeString(info.TypeOf(cl), nil), "qids.qidTransformFile")
+	}
+	isFile := func(t types.Type) bool { return t != nil && strings.HasSuffix(types.TypeString(t, nil), "p9.File") }
+	var wrappedOrNil func(fi *FuncInfo, e ast.Expr, ret *ast.ReturnStmt, depth int) bool
+	// flagAt: for variable v of fi, whether "nil or wrapped" holds at each return
+	flagAt := func(fi *FuncInfo, v types.Object, depth int) map[*ast.ReturnStmt]bool {
+		exits, _ := mustFlag(db, fi, func(n ast.Node, res *resolver) (bool, bool) {
+			as, ok := n.(*ast.AssignStmt)
+			if !ok {
+				return false, false
+			}
+			for i, lhs := range as.Lhs {
+				if objOf(info, lhs) != v {
+					continue
+				}
+				if len(as.Lhs) == len(as.Rhs) {
+					return wrappedOrNil(fi, as.Rhs[i], nil, depth+1), true
+				}
+				return false, true // one of several results of a call (the backend's File)
+			}
+			return false, false
+		}, func(key string, truth bool) bool {
+			return truth && (key == v.Name()+" == nil" || key == "nil == "+v.Name())
+		})
+		return exits
+	}
+	wrappedOrNil = func(fi *FuncInfo, e ast.Expr, ret *ast.ReturnStmt, depth int) bool {
+		e = unparen(e)
+		if depth > 3 {
+			return false
+		}
+		if isNilIdent(info, e) || isWrapLit(e) {
+			return true
+		}
+		if c, ok := e.(*ast.CallExpr); ok {
+			// a helper that returns nil-or-wrapped whatever it is given
+			h := r.L.FuncOf(callee(info, c))
+			if h == nil || h.Decl.Body == nil || h.Pkg != pkg {
+				return false
+			}
+			okAll, n := true, 0
+			ast.Inspect(h.Decl.Body, func(nd ast.Node) bool {
+				if _, isLit := nd.(*ast.FuncLit); isLit {
+					return false
+				}
+				if rs, ok := nd.(*ast.ReturnStmt); ok && len(rs.Results) == 1 {
+					n++
+					if !wrappedOrNil(h, rs.Results[0], rs, depth+1) {
+						okAll = false
+					}
+				}
+				return true
+			})
+			return okAll && n > 0
+		}
+		if v := objOf(info, e); v != nil && ret != nil {
+			return flagAt(fi, v, depth)[ret]
+		}
+		return false
+	}
+	n := 0
+	for _, fi := range r.L.funcsOfPkg("fsimpl/qids") {
+		if fi.Decl.Recv == nil || fi.Decl.Body == nil || fi.Decl.Type.Results == nil || !strings.HasSuffix(fi.Key, "qidTransformFile."+fi.Decl.Name.Name) {
+			continue
+		}
+		// positions of File results
+		var idx []int
+		i := 0
+		for _, f := range fi.Decl.Type.Results.List {
+			k := len(f.Names)
+			if k == 0 {
+				k = 1
+			}
+			for j := 0; j < k; j++ {
+				if isFile(info.TypeOf(f.Type)) {
+					idx = append(idx, i)
+				}
+				i++
+			}
+		}
+		if len(idx) == 0 {
+			continue
+		}
+		ast.Inspect(fi.Decl.Body, func(nd ast.Node) bool {
+			if _, isLit := nd.(*ast.FuncLit); isLit {
+				return false
+			}
+			rs, ok := nd.(*ast.ReturnStmt)
+			if !ok || len(rs.Results) != i {
+				return true
+			}
+			for _, k := range idx {
+				n++
+				r.check(wrappedOrNil(fi, rs.Results[k], rs, 0), "r5", fi.Key+": the File handed out translates its QIDs", rs.Pos(), "nil, or wrapped with the wrapper's mapper, on every path",
+					"a File is returned that may be neither nil nor wrapped in qidTransformFile: QIDs obtained through it (GetAttr, Readdir, further walks) are in the inner namespace while the parent's listing reports the outer one")
+			}
+			return true
+		})
+	}
+	r.floor("r5", "File results of the QID wrapper", n, 3)
 }
